@@ -106,6 +106,7 @@ type rangeIter struct {
 	mt      *types.Map
 	m       string
 	visKey  string // state component: visited set
+	cntKey  string // state component: number of keys produced so far
 	visSort string
 	isStr   bool
 	str     string
@@ -116,9 +117,10 @@ func (ex *Exec) doRange(i *ssa.Range) {
 	x := ex.val(i.X)
 	if mt, ok := ex.typ(i.X.Type()).Underlying().(*types.Map); ok {
 		mk := ex.mapComps(mt)
-		it := &rangeIter{mt: mt, m: x.T, visKey: fmt.Sprintf("V:%s%s", ex.pfx, i.Name()), visSort: "(Array " + mk.ks + " Bool)"}
+		it := &rangeIter{mt: mt, m: x.T, visKey: fmt.Sprintf("V:%s%s", ex.pfx, i.Name()), visSort: "(Array " + mk.ks + " Bool)", cntKey: fmt.Sprintf("VN:%s%s", ex.pfx, i.Name())}
 		ex.rangeIters[i] = it
 		ex.set(ex.curState, it.visKey, it.visSort, "((as const "+it.visSort+") false)")
+		ex.set(ex.curState, it.cntKey, "Int", "0")
 		ex.vals[i] = Val{T: "0"}
 		return
 	}
@@ -148,9 +150,20 @@ func (ex *Exec) doNext(i *ssa.Next) {
 	ok := ex.vc.fresh(ex.pfx+i.Name()+"_ok", "Bool")
 	k := ex.vc.fresh(ex.pfx+i.Name()+"_k", mk.ks)
 	// ok  => k in dom, not visited ; !ok => every key in dom was visited
-	ex.vc.assume(sImp(ex.curReach, sImp(ok, sAnd(sSel(dom, k), sNot(sSel(vis, k))))))
+	ex.vc.assume(sImp(ex.curReach, sImp(ok, sAnd(sSel(dom, k), sNot(sSel(vis, k)), "(not (= "+it.m+" 0))"))))
 	ex.vc.assume(sImp(ex.curReach, sImp(sNot(ok), fmt.Sprintf("(forall ((kk %s)) (! (=> (select %s kk) (select %s kk)) :pattern ((select %s kk))))", mk.ks, dom, vis, dom))))
 	ex.set(st, it.visKey, it.visSort, sIte(ok, sSto(vis, k, "true"), vis))
+	// finite-map cardinality: while no map of this type is written inside the loop, the keys produced so far are
+	// distinct members of the domain, so their number stays below len(m) as long as another key is produced and
+	// equals len(m) when the iteration ends.
+	cnt := ex.get(st, it.cntKey, "Int")
+	if l := ex.loopOfBlock(i.Block()); l != nil && !ex.vc.discover && !l.Mod[mk.dom] {
+		card := sSel(ex.get(st, mk.card, "(Array Int Int)"), it.m)
+		ex.vc.assume(sImp(ex.curReach, sAnd("(>= "+cnt+" 0)", sImp(ok, "(< "+cnt+" "+card+")"), sImp(sNot(ok), "(= "+cnt+" "+card+")"))))
+		ex.vc.assume(sImp(ex.curReach, fmt.Sprintf("(forall ((kk %s)) (! (=> (select %s kk) (select %s kk)) :pattern ((select %s kk))))", mk.ks, vis, dom, vis)))
+		ex.vc.assumptions["map iteration: the keys produced by one range loop over an unmodified map are distinct members of its domain, at most len(m) of them, exactly len(m) when the loop ends"] = true
+	}
+	ex.set(st, it.cntKey, "Int", sIte(ok, "(+ "+cnt+" 1)", cnt))
 	v := ex.vc.define(ex.pfx+i.Name()+"_v", mk.vs, sSel(sSel(ex.get(st, mk.val, mk.valS), it.m), k))
 	ex.vc.assume(sImp(ex.curReach, ex.typeInv(v, mk.vt, st)))
 	ex.vc.assume(sImp(ex.curReach, ex.typeInv(k, mk.kt, st)))
@@ -298,7 +311,11 @@ func (ex *Exec) builtinCall(v *ssa.Call, c *ssa.CallCommon, b *ssa.Builtin, pos 
 	args := ex.args(c)
 	switch b.Name() {
 	case "len":
-		return Val{T: ex.lenOf(args[0].T, c.Args[0].Type(), ex.curState)}
+		ln := ex.lenOf(args[0].T, c.Args[0].Type(), ex.curState)
+		if _, isMap := ex.typ(c.Args[0].Type()).Underlying().(*types.Map); isMap {
+			ex.vc.assume(sImp(ex.curReach, "(and (<= 0 "+ln+") (<= "+ln+" 72057594037927936))"))
+		}
+		return Val{T: ln}
 	case "cap":
 		return Val{T: "(scap " + args[0].T + ")"}
 	case "append":
@@ -865,90 +882,19 @@ func (ex *Exec) havocModifies(spec *FuncSpec, ev *Eval, pre, post *State, callee
 // forall args. call_sig(id, args) = body  (evaluated in the state at creation; captured cells are read there).
 func (ex *Exec) closureAxiom(mc *ssa.MakeClosure, id string) {
 	fn := mc.Fn.(*ssa.Function)
-	if len(fn.Blocks) != 1 {
-		return
-	}
 	sig := fn.Signature
 	if sig.Results().Len() != 1 {
 		return
 	}
-	env := map[ssa.Value]string{}
-	envLoc := map[ssa.Value]*Loc{}
 	var bound []string
 	var argNames []string
 	for i, p := range fn.Params {
 		n := fmt.Sprintf("cp%d", i)
-		env[p] = n
 		bound = append(bound, fmt.Sprintf("(%s %s)", n, ex.sortOfT(p.Type())))
 		argNames = append(argNames, n)
 	}
-	for i, fv := range fn.FreeVars {
-		env[fv] = ex.val(mc.Bindings[i]).T
-		if l := ex.val(mc.Bindings[i]).Loc; l != nil {
-			envLoc[fv] = l
-		}
-	}
-	get := func(v ssa.Value) (string, bool) {
-		if t, ok := env[v]; ok {
-			return t, true
-		}
-		if c, ok := v.(*ssa.Const); ok {
-			return ex.constVal(c).T, true
-		}
-		return "", false
-	}
-	var ret string
-	for _, ins := range fn.Blocks[0].Instrs {
-		switch i := ins.(type) {
-		case *ssa.DebugRef:
-		case *ssa.UnOp:
-			x, ok := get(i.X)
-			if !ok {
-				return
-			}
-			switch i.Op {
-			case token.MUL:
-				pt := ex.typ(i.X.Type()).Underlying().(*types.Pointer).Elem()
-				if isAggregate(pt) {
-					return
-				}
-				if l := envLoc[i.X]; l != nil {
-					env[i] = ex.loadLocNoPerm(ex.curState, l)
-				} else {
-					env[i] = ex.loadAt(ex.curState, x, pt)
-				}
-			case token.NOT:
-				env[i] = sNot(x)
-			case token.SUB:
-				env[i] = "(- " + x + ")"
-			default:
-				return
-			}
-		case *ssa.BinOp:
-			x, ok1 := get(i.X)
-			y, ok2 := get(i.Y)
-			if !ok1 || !ok2 || ex.isStringy(i.X.Type()) {
-				return
-			}
-			op := map[token.Token]string{token.ADD: "+", token.SUB: "-", token.MUL: "*", token.EQL: "=", token.LSS: "<", token.LEQ: "<=", token.GTR: ">", token.GEQ: ">="}[i.Op]
-			if i.Op == token.NEQ {
-				env[i] = sNot(sEq(x, y))
-			} else if op != "" {
-				env[i] = "(" + op + " " + x + " " + y + ")"
-			} else {
-				return
-			}
-		case *ssa.Return:
-			r, ok := get(i.Results[0])
-			if !ok {
-				return
-			}
-			ret = r
-		default:
-			return
-		}
-	}
-	if ret == "" {
+	ret, ok := ex.closureBody(mc, ex.curState, argNames)
+	if !ok {
 		return
 	}
 	app := ex.applyFunc(id, ex.typ(sig).(*types.Signature), argNames)[0]
@@ -957,6 +903,108 @@ func (ex *Exec) closureAxiom(mc *ssa.MakeClosure, id string) {
 		return
 	}
 	ex.vc.assume(fmt.Sprintf("(forall (%s) (! (= %s %s) :pattern (%s)))", strings.Join(bound, " "), app, ret, app))
+}
+
+// closureBody: the value a single-block pure closure returns for the given argument terms, with every memory
+// read done in state st. Index expressions are read without bounds obligations (the caller states the range).
+func (ex *Exec) closureBody(mc *ssa.MakeClosure, st *State, argTerms []string) (string, bool) {
+	fn := mc.Fn.(*ssa.Function)
+	if len(fn.Blocks) != 1 || fn.Signature.Results().Len() != 1 {
+		return "", false
+	}
+	env := map[ssa.Value]string{}
+	envLoc := map[ssa.Value]*Loc{}
+	for i, p := range fn.Params {
+		if i < len(argTerms) {
+			env[p] = argTerms[i]
+		}
+	}
+	for i, fv := range fn.FreeVars {
+		b := ex.val(mc.Bindings[i])
+		env[fv] = b.T
+		if b.Loc != nil {
+			envLoc[fv] = b.Loc
+		}
+	}
+	get := func(v ssa.Value) (string, bool) {
+		if t, ok := env[v]; ok && t != "" {
+			return t, true
+		}
+		if c, ok := v.(*ssa.Const); ok {
+			return ex.constVal(c).T, true
+		}
+		return "", false
+	}
+	ret := ""
+	for _, ins := range fn.Blocks[0].Instrs {
+		switch i := ins.(type) {
+		case *ssa.DebugRef:
+		case *ssa.IndexAddr:
+			x, ok1 := get(i.X)
+			idx, ok2 := get(i.Index)
+			sl, isSl := ex.typ(i.X.Type()).Underlying().(*types.Slice)
+			if !ok1 || !ok2 || !isSl || isStructType(sl.Elem()) {
+				return "", false
+			}
+			k, srt := ex.elemKey(sl.Elem())
+			envLoc[i] = &Loc{Kind: LElem, Base: "(sarr " + x + ")", Idx: "(ix (soff " + x + ") " + idx + ")", Key: k, Sort: srt, Ty: sl.Elem()}
+			env[i] = ""
+		case *ssa.UnOp:
+			switch i.Op {
+			case token.MUL:
+				if l := envLoc[i.X]; l != nil {
+					env[i] = ex.loadLocNoPerm(st, l)
+					continue
+				}
+				x, ok := get(i.X)
+				if !ok {
+					return "", false
+				}
+				pt := ex.typ(i.X.Type()).Underlying().(*types.Pointer).Elem()
+				if isAggregate(pt) {
+					return "", false
+				}
+				env[i] = ex.loadAt(st, x, pt)
+			case token.NOT:
+				x, ok := get(i.X)
+				if !ok {
+					return "", false
+				}
+				env[i] = sNot(x)
+			case token.SUB:
+				x, ok := get(i.X)
+				if !ok {
+					return "", false
+				}
+				env[i] = "(- " + x + ")"
+			default:
+				return "", false
+			}
+		case *ssa.BinOp:
+			x, ok1 := get(i.X)
+			y, ok2 := get(i.Y)
+			if !ok1 || !ok2 || ex.isStringy(i.X.Type()) {
+				return "", false
+			}
+			op := map[token.Token]string{token.ADD: "+", token.SUB: "-", token.MUL: "*", token.EQL: "=", token.LSS: "<", token.LEQ: "<=", token.GTR: ">", token.GEQ: ">="}[i.Op]
+			if i.Op == token.NEQ {
+				env[i] = sNot(sEq(x, y))
+			} else if op != "" {
+				env[i] = "(" + op + " " + x + " " + y + ")"
+			} else {
+				return "", false
+			}
+		case *ssa.Return:
+			r, ok := get(i.Results[0])
+			if !ok {
+				return "", false
+			}
+			ret = r
+		default:
+			return "", false
+		}
+	}
+	return ret, ret != ""
 }
 
 // afterCallGhost applies the `ghost-at callee#k:` updates of the function under verification right after the
